@@ -82,6 +82,8 @@ type shortReader struct {
 	// empty: every fragment is preceded by one read that returns (0, nil) (allowed by io.Reader, never twice in a row)
 	empty     bool
 	lastEmpty bool
+	// eofData: the last fragment is returned together with io.EOF (allowed by io.Reader; TLS connections and pipes do it)
+	eofData bool
 }
 
 func (s *shortReader) Read(p []byte) (int, error) {
@@ -102,6 +104,9 @@ func (s *shortReader) Read(p []byte) (int, error) {
 	}
 	copy(p, s.data[:n])
 	s.data = s.data[n:]
+	if s.eofData && len(s.data) == 0 {
+		return n, io.EOF
+	}
 	return n, nil
 }
 
